@@ -18,8 +18,9 @@ import (
 	"strconv"
 	"strings"
 
-	"github.com/dolthub/vitess/go/sqltypes"
 	"github.com/dolthub/vitess/go/vt/sqlparser"
+
+	"github.com/dolthub/dolt/go/libraries/doltcore/sqle/sqlfmt"
 
 	"verifharness/hk"
 	"verifharness/util"
@@ -211,6 +212,14 @@ func stmtKind(s string) string {
 		return "update"
 	case strings.HasPrefix(u, "DELETE"):
 		return "delete"
+	case strings.HasPrefix(u, "ALTER") && strings.Contains(u, "RENAME COLUMN"):
+		return "alter-rename"
+	case strings.HasPrefix(u, "ALTER") && strings.Contains(u, "MODIFY COLUMN"):
+		return "alter-modify"
+	case strings.HasPrefix(u, "ALTER") && strings.Contains(u, " ADD "):
+		return "alter-add"
+	case strings.HasPrefix(u, "ALTER") && strings.Contains(u, " DROP "):
+		return "alter-drop"
 	case strings.HasPrefix(u, "ALTER"):
 		return "alter"
 	}
@@ -226,13 +235,8 @@ func Run(raw json.RawMessage) (any, error) {
 	o.RtErrs = []string{}
 	// ---- string literals: the encoder sqlfmt.quoteAndEscapeString uses, and the tokenizer
 	for _, bs := range c.Strs {
-		v, err := sqltypes.NewValue(sqltypes.VarChar, toBytes(bs))
-		if err != nil {
-			return nil, err
-		}
-		var sb strings.Builder
-		v.EncodeSQL(&sb)
-		l := sb.String()
+		// the function sqlfmt uses for every string value of INSERT / UPDATE statements (add-only export)
+		l := sqlfmt.VerifQuoteAndEscapeString(string(toBytes(bs)))
 		tk := sqlparser.NewStringTokenizer(l)
 		typ, val := tk.Scan()
 		next, _ := tk.Scan()
@@ -269,6 +273,23 @@ func Run(raw json.RawMessage) (any, error) {
 		}
 	case "dropcol":
 		if err := s.MustExec("ALTER TABLE t DROP COLUMN a"); err != nil {
+			return nil, err
+		}
+	case "rename":
+		if err := s.MustExec("ALTER TABLE t RENAME COLUMN a TO a2"); err != nil {
+			return nil, err
+		}
+	case "modify":
+		if err := s.MustExec("ALTER TABLE t MODIFY COLUMN a bigint"); err != nil {
+			return nil, err
+		}
+	case "change":
+		if err := s.MustExec("ALTER TABLE t CHANGE COLUMN a a2 bigint"); err != nil {
+			return nil, err
+		}
+	case "renmod":
+		// rename in one commit, retype in the next: the patch spans both
+		if err := s.MustExec("ALTER TABLE t RENAME COLUMN a TO a2", "CALL dolt_commit('-A','-m','c1b')", "ALTER TABLE t MODIFY COLUMN a2 bigint"); err != nil {
 			return nil, err
 		}
 	}
